@@ -195,6 +195,13 @@ def _rewrite(prop, case, f):
     # dataset that was there is already truncated / partly overwritten
     if prop != "C18" or f.get("mode") != "rewrite" or not f.get("opened_for_writing"):
         return False
+    # only the refusals that are late by nature - they need the VALUES (a None met while converting a non-nullable column, a value
+    # the declared encoding cannot take) or the codec: a refusal that the column types alone decide is made before anything is
+    # opened, and is not explained by this finding if it ever comes late
+    late = {("none_in_required", "writer.py:convert"), ("na_in_required_int", "writer.py:convert"),
+            ("bad_object_encoding", "writer.py:write_column"), ("unknown_codec", "compression.py:compress_data")}
+    if (f.get("rejection"), f.get("raised_where")) not in late:
+        return False
     return f.get("kind", "").startswith(("dataset_unreadable_after_rejection", "content_changed_after_rejection", "existing_part_file_unreadable_after_rejection"))
 
 
